@@ -22,6 +22,22 @@ add('C16', 'exploration', 'runtime post-condition monitor on the real PhaseShift
     'arithmetic whose only hazards are floating-point edge cases, which directed inputs reach deterministically.',
     'numpy float64 semantics; inputs are 2-D arrays in [0,1)^d; tolerances 1e-12', 'DESIGN.md#C16')
 
+add('C15', 'exploration', 'lock-step reference interpreter on the real Prior over an exhaustive enumeration of declaration sequences',
+    'Every declaration sequence up to length 3 (quick) / 5 (thorough) over a 15-letter alphabet of valid and '
+    'malformed declarations is executed on the real Prior next to a reference interpreter; after each '
+    'declaration the key/dist lists are compared (rejections must be ValueError/TypeError and leave no trace), '
+    'at the end dimensionality and both transforms are checked for (d,) and (n,d) inputs. Exhaustive over the '
+    'alphabet to the stated length, sampled over unit-cube inputs.',
+    'scipy.stats ppf/isf as the inverse CDF reference; alphabet and length bound define the reach', 'DESIGN.md#C15')
+
+add('C13', 'exploration', 'history + reference model checked after every operation, exhaustive prefix tree of split/trim/sample sequences on the real Union',
+    'For each generated point set all operation sequences up to length 3 (quick) / 5 (thorough) are executed on '
+    'deep copies of the real Union; after every operation record lengths, volumes, may-split flags, point-set '
+    'partition/conservation, minimum points, volume monotonicity, refused-op immutability and absence of '
+    'exceptions are checked against the reference list of point sets.',
+    'exhaustive in operation order per point set, sampled over point sets; GaussianMixture behaviour as installed',
+    'DESIGN.md#C13')
+
 
 def main():
     checks = []
